@@ -128,7 +128,12 @@ class QRModel:
             kind = plan["kind"]
             if kind == "SolverError":
                 raise SymRaise(ExcVal("SolverError", ("solver failed",), ("cvxpy.error.SolverError", "Exception")))
-            raise SymRaise(ExcVal("UserWarning", ("Solution may be inaccurate.",), ("Warning", "Exception")))
+            # an inaccurate solution is reported by a UserWarning: what happens is decided by the first matching warning filter
+            action = next((a_ for a_, c_ in getattr(interp, "warning_filters", [("error", "UserWarning")]) if c_ in ("UserWarning", "Warning")), "default")
+            if action == "error":
+                raise SymRaise(ExcVal("UserWarning", ("Solution may be inaccurate.",), ("Warning", "Exception")))
+            # ignored / printed: the call returns normally with the INACCURATE coefficients (fresh symbols, marked)
+            self.inaccurate = getattr(self, "inaccurate", 0) + 1
         X = b["x"]
         w = b["weights"]
         # precondition of the solve: a positive total weight (otherwise ZeroDivisionError, see the installed source)
@@ -370,7 +375,28 @@ def install(theories, interp):
     theories["scipy.stats"] = sc
     theories["stats"] = sc
     theories["cvxpy"] = {"error": {"SolverError": _exc_class("SolverError")}}
-    theories["warnings"] = {"filterwarnings": lambda *a, **k: None}
+    # the warning filters that decide what a UserWarning of the solver becomes: a list, newest first, of (action, category);
+    # the module-level filter of ConformalElectionModel ("error" for cvxpy's inaccuracy warning: obligation of C20.reach) is the
+    # bottom entry; `with warnings.catch_warnings():` saves and restores the list (pyvc.interp.st_With)
+    interp.warning_filters = [("error", "UserWarning")]
+
+    def _filter(action, message="", category=None, module="", lineno=0, append=False, **kw):
+        cat = getattr(category, "name", None) or getattr(category, "__name__", None) or getattr(category, "clsname", None) or (str(category) if category is not None else "Warning")
+        entry = (str(action), cat)
+        if append:
+            interp.warning_filters.append(entry)
+        else:
+            interp.warning_filters.insert(0, entry)
+
+    class _CatchWarnings:
+        def pyvc_enter(self, interp_):
+            self.saved = list(interp_.warning_filters)
+            return None
+
+        def pyvc_exit(self, interp_):
+            interp_.warning_filters[:] = self.saved
+
+    theories["warnings"] = {"filterwarnings": _filter, "simplefilter": lambda action, category=None, lineno=0, append=False, **kw: _filter(action, category=category, append=append), "catch_warnings": lambda **kw: _CatchWarnings(), "resetwarnings": lambda: interp.warning_filters.clear()}
 
 
 def _exc_class(name):
